@@ -427,7 +427,7 @@ func TestC16(t *testing.T) {
 		"or unbounded); distinct = hash of body")
 	defer rec.Flush()
 	replayKnown(t, "C16")
-	rapidSetup(env.Pick(12000, 300000), 16)
+	rapidSetup(env.Pick(12000, 1200000), 16)
 	rapid.Check(t, func(rt *rapid.T) {
 		size := 2 + gogen.Uniform(rt, 14, "size")
 		src, _ := c16Program(rapidChooser{rt}, size)
